@@ -317,6 +317,12 @@ pub fn parse_spec(text: &str, prelude_dir: &str) -> Result<Unit, String> {
                 f.ret_ty = kv(&ws, "rty").map(|s| s.to_string());
                 f.params = kv(&ws, "params").map(|s| s.to_string());
                 f.self_as = kv(&ws, "selfas").map(|s| s.to_string());
+                if flag(&ws, "assumed") {
+                    // an assumed function: its real signature (rewritten by the rules) with the contract of the
+                    // spec, body external.  A changed signature no longer matches the contract -> refusal, not silence.
+                    f.stub = true;
+                    f.attrs.push("#[verifier::external_body]".to_string());
+                }
                 if f.path.contains("#closure") && f.rename.is_none() {
                     return Err(err("outlined closure needs as=NAME"));
                 }
